@@ -115,8 +115,13 @@ type Apps struct {
 
 // NewApps builds the three services from one configuration.
 func NewApps(conf *config.Configuration, cch cache.Cache) *Apps {
+	return NewAppsWithLogger(conf, cch, zerolog.Nop())
+}
+
+// NewAppsWithLogger builds the services with the given logger (e.g. one at trace level writing to io.Discard: log
+// statements are code as well).
+func NewAppsWithLogger(conf *config.Configuration, cch cache.Cache, log zerolog.Logger) *Apps {
 	a := &Apps{Conf: conf, Upstream: NewUpstream(), execDec: &SwapExec{}, execPrx: &SwapExec{}, execEnv: &SwapExec{}}
-	log := zerolog.Nop()
 
 	if conf.Serve.Proxy.Timeout.Read == 0 {
 		conf.Serve.Proxy.Timeout.Read = 120 * time.Second
